@@ -75,6 +75,12 @@ func fuzzRun[C any](t *testing.T, id string, c C, check func(C, *ev.Rec) *ev.Fai
 		return
 	}
 	rec.Report(c, f)
+	if f.Sig["result"] == "hang" {
+		// the call keeps spinning: end the process instead of hanging on the
+		// next inputs as well
+		fmt.Printf("VERIF-REPLAY %s\n%s\n", rec.LastReplay(), f.Msg)
+		os.Exit(1)
+	}
 	t.Fatalf("VERIF-REPLAY %s\n%s", rec.LastReplay(), f.Msg)
 }
 
